@@ -706,6 +706,13 @@ func readCountInto(n ssa.Value, b ssa.Value) bool {
 				buf = call.Call.Args[1]
 			} else if call.Call.IsInvoke() && call.Call.Method.Name() == "ReadAtLeast" {
 				buf = call.Call.Args[0]
+			} else if g := flow.StaticCallee(call); g != nil && g.Blocks != nil {
+				// a read helper: every count it returns is the count of a read into its byte parameter
+				if bp := byteParam(g); bp != nil && readHelperCount(g, bp) {
+					if i := paramIndex(g, bp); i < len(call.Call.Args) {
+						buf = call.Call.Args[i]
+					}
+				}
 			}
 			sl, ok := buf.(*ssa.Slice)
 			if !ok || sl.X != b {
@@ -1977,4 +1984,30 @@ func (x *c03) symbolicSlice(f *ssa.Function, v *ssa.Slice) string {
 		return ""
 	}
 	return "Gsym: x[low:] with x a window of the decoder's input; low ≥ 0 and len(x) − low ≥ 0 follow, under the V flag and without it, from guards whose failing edge returns an error (affine arithmetic over the wire Length)"
+}
+
+// readHelperCount: every first result of g is the count returned by io.ReadFull / ReadAtLeast into g's byte
+// parameter bp (so 0 ≤ count ≤ len(bp) by the reader contract).
+func readHelperCount(g *ssa.Function, bp *ssa.Parameter) bool {
+	rvs := flow.ReturnValues(g, 0)
+	for _, rv := range rvs {
+		ex, ok := rv.(*ssa.Extract)
+		if !ok || ex.Index != 0 {
+			return false
+		}
+		call, ok := ex.Tuple.(*ssa.Call)
+		if !ok {
+			return false
+		}
+		var buf ssa.Value
+		if flow.IsCallTo(call, "io", "", "ReadFull") || flow.IsCallTo(call, "io", "", "ReadAtLeast") {
+			buf = call.Call.Args[1]
+		} else if call.Call.IsInvoke() && call.Call.Method.Name() == "ReadAtLeast" {
+			buf = call.Call.Args[0]
+		}
+		if buf == nil || flow.Peel(buf) != ssa.Value(bp) {
+			return false
+		}
+	}
+	return len(rvs) > 0
 }
